@@ -8,8 +8,8 @@ LEVEL_TEXT = ("Coq theorems over the policy model (Model/Policy.v: ShouldAcceptD
               "condition is needed), validated_domain_has_no_star (every domain that passed ValidateDomainPart meets it), origin_rule_validated "
               "(a sender is refused exactly when its domain matches a reject-origin pattern - no side condition left), case_blind; at session level, "
               "for every dialogue: rcpt_250_iff and mail_250_iff (a command is answered 250 exactly when syntax, parse, SIZE range, hook answer and "
-              "the policy rule say so), plain_mail_commands_are_parsed (MAIL commands of the plainest shape, read without the regenerated patterns, are matched by the regenerated parser - re-evaluated "
-              "on every run; the runner applies the same reading to the implementation's parser facts), accept_rule / bytes_accept_rule / net_accept_rule (on every transcript, byte stream and scripted connection the "
+              "the policy rule say so), plain_mail_commands_are_parsed (SEVEN SAMPLE MAIL commands of the plainest shape, read without the regenerated patterns, are matched by the regenerated parser - "
+              "re-evaluated on every run, not a universal statement; the runner applies the same reading to the implementation's parser facts), accept_rule / bytes_accept_rule / net_accept_rule (on every transcript, byte stream and scripted connection the "
               "250/550 answers agree with the policy wherever no extension decided), recipients_bounded; tied to the code by predicate-level "
               "differential runs through the real config.Process and by whole sessions (plain, every hook deferring, assembled server)")
 LEVEL_NOTE = ("Coq kernel; extraction; net.ParseIP is an oracle (validated_domain_has_no_star uses of it only that it accepts no string holding '*'); "
